@@ -1,3 +1,3 @@
 From JamV Require Import Model.AccParallel.
 Require Import ExtrOcamlBasic.
-Extraction "model.ml" N.of_nat N.to_nat Z.of_N Z.to_N par_ref par_acc par_acc_unsorted empty_out.
+Extraction "model.ml" N.of_nat N.to_nat Z.of_N Z.to_N par_ref par_acc par_acc_unsorted empty_out theta_of.
